@@ -5,7 +5,7 @@ mutant (workspace compiles, every baseline test except the always-failing ui_tes
 quick checks of the properties it should disturb against it (VERIF_REPO) and record killed /
 survived. Writes sensitivity/REPORT.md. Nothing is changed in /repo.
 
-usage: sensitivity.py [--only <substring>] [--skip-tests]
+usage: sensitivity.py [--only <substring>[,<substring>...]] [--skip-tests]
 """
 import json
 import os
@@ -63,7 +63,7 @@ def main():
             props = [d[:3]]
             items.append(("seeded/" + d, p, props, "independent sub-agent"))
     if only:
-        items = [i for i in items if only in i[0]]
+        items = [i for i in items if any(o in i[0] for o in only.split(","))]
     sh(["git", "-C", "/repo", "worktree", "remove", "--force", WT])
     rc, out = sh(["git", "-C", "/repo", "worktree", "add", "-q", WT, "HEAD"])
     if rc != 0:
